@@ -16,18 +16,20 @@
      env_ok num rho G V    every name bound in G has a value in V, and its bit symbols evaluate
                            under rho to the bits of that value
      env_canon G           every binding carries the bit names its type gives (translate_argument)
-     env_ne G              no bound type has an EMPTY tuple inside (ty_ne).  The code counts
-                           `Tuple[()]` as one bit in _type_size although it has no bit name: with
-                           u = ((), a) the statement `return u[1]` reads the free symbol u.1
-     env_good G            ... and no sized component of fewer than 2 bits (ty_good; every shipped
-                           sized type has at least 2 bits; a one-bit sized NAME would evaluate to a
-                           bare Symbol).  One-element tuples are fine since 861badb
+     sub_ne G e            no subscript in e selects an EMPTY tuple component.  The one thing left of
+                           the subscript defects: `u[0]` with u = ((), a) is still (Tuple[()],
+                           Symbol("u.0")), ONE fabricated symbol for a value without bits, so
+                           `t = (u[0], q); return t[1]` (q: Qint[2]) reads free symbols
+     env_good G            no bound type has a sized component of fewer than 2 bits (ty_good; every
+                           shipped sized type has at least 2 bits; a one-bit sized NAME would
+                           evaluate to a bare Symbol).  Tuples of any length, the empty one
+                           included, are fine (fixes 861badb, 4042692)
      wf_res r              the translated value is shaped as its type: a bool is a bare expression, a
                            sized value a flat list
-     pexp_ne e / stmt_ne s no empty tuple expression `()`
-     stmt_guard, body_guard   the ONE decidable side condition left on statements (evaluated on every
-                           program of the correspondence run): no definition of a statement reads a
-                           symbol an earlier definition of the SAME statement assigns (seq_ok)
+     stmt_guard, body_guard   the decidable side conditions left on statements (evaluated on every
+                           program of the correspondence run): sub_ne of the statement's expression,
+                           and no definition of a statement reads a symbol an earlier definition
+                           of the SAME statement assigns (seq_ok)
      forall a b, num a = num b -> a = b     the numbering of bit names is injective (enc is)
    A result None of the model is "the Python code raises". *)
 From Coq Require Import List Bool NArith ZArith Arith.
@@ -37,7 +39,7 @@ Local Open Scope N_scope.
 
 (* ---------------- expressions: ALL constructors ---------------- *)
 Theorem C01x_trans_exp_sound : forall num rho G V e r v,
-  env_ok num rho G V -> env_canon G -> env_ne G ->
+  env_ok num rho G V -> env_canon G -> sub_ne G e = true ->
   trans_exp num G e = Some r -> eval_exp V e = Some v -> den rho r = Some v.
 Proof. exact trans_exp_sound. Qed.
 Print Assumptions C01x_trans_exp_sound.
@@ -45,10 +47,9 @@ Print Assumptions C01x_trans_exp_sound.
 (* the translated type is the type of the value, the value is shaped as its type, and its type
    has no one-bit sized component *)
 Theorem C01x_trans_exp_type : forall num rho G V e r v,
-  env_ok num rho G V -> env_canon G -> env_good G ->
+  env_ok num rho G V -> env_canon G -> env_good G -> sub_ne G e = true ->
   trans_exp num G e = Some r -> eval_exp V e = Some v ->
-  type_of v = fst r /\ length (flat (snd r)) = ty_size (fst r) /\ wf_res r
-  /\ (pexp_ne e = true -> ty_good (fst r) = true).
+  type_of v = fst r /\ length (flat (snd r)) = ty_size (fst r) /\ wf_res r /\ ty_good (fst r) = true.
 Proof. exact trans_exp_type. Qed.
 Print Assumptions C01x_trans_exp_type.
 
@@ -63,12 +64,12 @@ Definition exe : pexp :=
             (EName 2%nat).
 
 Example C01x_trans_exp_ex :
-  env_ok exnum exrho exG exV /\ env_canon exG /\ env_ne exG
+  env_ok exnum exrho exG exV /\ env_canon exG /\ sub_ne exG exe = true
   /\ (exists r, trans_exp exnum exG exe = Some r /\ fst r = TBool)
   /\ eval_exp exV exe = Some (VB false)          (* ((3 widened to 4 bits) + 1) * 2 = 8 at 8 bits; 8 > 9 is false *)
   /\ option_map (den exrho) (trans_exp exnum exG exe) = Some (Some (VB false)).
 Proof.
-  split; [|split; [apply arg_env_canon|split; [apply arg_env_ne; reflexivity|]]].
+  split; [|split; [apply arg_env_canon|split; [reflexivity|]]].
   - apply (arg_env_ok exnum exrho [(1%nat, TQint 2); (2%nat, TQint 4); (3%nat, TBool)] [VI 2 3; VI 4 9; VB true]).
     repeat constructor.
   - repeat split; try (vm_compute; reflexivity). eexists. split; vm_compute; reflexivity.
@@ -78,7 +79,7 @@ Qed.
    constants, comparisons, + - * & | ^, shifts by an integer constant; every bound name a bool or a
    Qint) HAVE a value, and denote it: soundness without the hypothesis on the evaluator *)
 Theorem C01x_trans_exp_total : forall num rho G V e r,
-  env_ok num rho G V -> env_canon G -> env_ne G -> ib_env G -> frag e = true -> trans_exp num G e = Some r ->
+  env_ok num rho G V -> env_canon G -> ib_env G -> frag e = true -> trans_exp num G e = Some r ->
   exists v, eval_exp V e = Some v /\ den rho r = Some v.
 Proof. exact trans_exp_total. Qed.
 Print Assumptions C01x_trans_exp_total.
@@ -87,19 +88,19 @@ Example C01x_trans_exp_total_ex : ib_env exG /\ frag exe = true.
 Proof. split; [apply arg_env_ib|]; reflexivity. Qed.
 
 (* ---------------- statements ---------------- *)
-(* ONE statement.  Hypotheses: an injective numbering; the environment invariants; the declared
-   return type and the statement without empty tuples / one-bit sized types; seq_ok (stmt_guard) *)
+(* ONE statement.  Hypotheses: an injective numbering; the environment invariants; a declared
+   return type without one-bit sized components; stmt_guard = sub_ne and seq_ok *)
 Theorem C01x_trans_stmt_sound : forall num, (forall a b, num a = num b -> a = b) ->
   forall rho G V rt s ds G' V',
   env_ok num rho G V -> env_canon G -> env_good G -> ty_good rt = true ->
-  stmt_ne s = true -> stmt_guard num G rt s = true ->
+  stmt_guard num G rt s = true ->
   trans_stmt num G rt s = Some (ds, G') -> eval_stmt V rt s = Some V' ->
   env_ok num (run_defs rho (numbered num ds)) G' V' /\ env_canon G' /\ env_good G'.
 Proof. exact trans_stmt_sound. Qed.
 Print Assumptions C01x_trans_stmt_sound.
 
 (* the names an Assign / Return binds are the names translate_argument gives to the type, for EVERY
-   value with a meaning: no side condition (one-element tuples included since 861badb) *)
+   value with a meaning: no side condition (one-element and empty tuples included) *)
 Theorem C01x_binding_names : forall rho x r v, den rho r = Some v -> wf_res r ->
   map fst (decompose [x] (snd (regroup_value r))) = arg_names [x] (fst r).
 Proof. exact regroup_canon. Qed.
@@ -122,7 +123,7 @@ Print Assumptions C01x_ret_coerce_sound.
 Theorem C01x_trans_body_sound : forall num, (forall a b, num a = num b -> a = b) ->
   forall body rho G V rt ds G' V',
   env_ok num rho G V -> env_canon G -> env_good G -> ty_good rt = true ->
-  forallb stmt_ne body = true -> body_guard num G rt body = true ->
+  body_guard num G rt body = true ->
   trans_body num G rt body = Some (ds, G') -> eval_body V rt body = Some V' ->
   env_ok num (run_defs rho (numbered num ds)) G' V' /\ env_canon G' /\ env_good G'.
 Proof. exact trans_body_sound. Qed.
@@ -139,7 +140,7 @@ Print Assumptions C01x_run_defs_seq.
 Theorem C01x_trans_fun_sound : forall num rho args rt body vs lf v,
   (forall a b, num a = num b -> a = b) ->
   trans_fun num args rt body = Some lf -> eval_fun args rt body vs = Some v ->
-  wf_args args = true -> ty_good rt = true -> wf_body body = true -> forallb stmt_ne body = true ->
+  wf_args args = true -> ty_good rt = true -> wf_body body = true ->
   body_guard num (arg_env args) rt body = true ->
   args_encoded num rho args vs ->
   lf_ret lf = (rt, arg_names [ret_id] rt) /\
@@ -168,7 +169,7 @@ Definition exbody : list pstmt :=
 Definition exrho2 : nat -> bool := rho_of [[1; 0]; [1; 1]; [2; 0]; [2; 3]; [3]]%nat.
 
 Example C01x_trans_fun_ex :
-  wf_args exargs = true /\ ty_good (TQint 4) = true /\ wf_body exbody = true /\ forallb stmt_ne exbody = true
+  wf_args exargs = true /\ ty_good (TQint 4) = true /\ wf_body exbody = true
   /\ body_guard enc (arg_env exargs) (TQint 4) exbody = true
   /\ args_encoded enc exrho2 exargs [VI 2 3; VI 4 9; VB true]
   /\ (exists lf, trans_fun enc exargs (TQint 4) exbody = Some lf /\ length (lf_defs lf) = 13%nat)
@@ -210,18 +211,25 @@ Print Assumptions C01x_rejects_operators.
 (* a subscript may select ANY element, a whole tuple-typed one included (`a[0]` of
    a: Tuple[Tuple[bool, Qint[2]], bool]): no side condition on subscripts is left *)
 Theorem C01x_subscript_of_tuple_sound : forall num rho G V x p r v,
-  env_ok num rho G V -> env_canon G -> env_ne G ->
+  env_ok num rho G V -> env_canon G -> sub_ne G (ESub x p) = true ->
   trans_exp num G (ESub x p) = Some r -> eval_exp V (ESub x p) = Some v ->
   den rho r = Some v /\ type_of v = fst r.
 Proof. exact subscript_of_tuple_sound. Qed.
 Print Assumptions C01x_subscript_of_tuple_sound.
 
+(* ... except an EMPTY one: soundness is false without sub_ne *)
+Theorem C01x_subscript_of_empty_refuted :
+  exists num rho G V e r v, env_ok num rho G V /\ env_canon G /\
+    trans_exp num G e = Some r /\ eval_exp V e = Some v /\ den rho r <> Some v /\ sub_ne G e = false.
+Proof. exact subscript_of_empty_refuted. Qed.
+Print Assumptions C01x_subscript_of_empty_refuted.
+
 Example C01x_subscript_of_tuple_ex :
-  env_ok ex_sub_num ex_sub_rho ex_sub_G ex_sub_V /\ env_canon ex_sub_G /\ env_ne ex_sub_G
+  env_ok ex_sub_num ex_sub_rho ex_sub_G ex_sub_V /\ env_canon ex_sub_G /\ sub_ne ex_sub_G (ESub 1%nat [0%nat]) = true
   /\ eval_exp ex_sub_V (ESub 1%nat [0%nat]) = Some (VT [VB true; VI 2 1])
   /\ option_map (den ex_sub_rho) (trans_exp ex_sub_num ex_sub_G (ESub 1%nat [0%nat])) = Some (Some (VT [VB true; VI 2 1])).
 Proof.
-  destruct ex_sub_env as (A & B & C). repeat split; try assumption; vm_compute; reflexivity.
+  destruct ex_sub_env as (A & B). repeat split; try assumption; vm_compute; reflexivity.
 Qed.
 
 (* `d = a; return d[1]` with a: Tuple[Qint[2], bool] (returned bit 1 of a[0] before the fix): the
@@ -248,7 +256,7 @@ Theorem C01x_seq_ok_needed_refuted :
     trans_fun enc ex_self_args (TQint 2) ex_self_body = Some lf /\
     eval_fun ex_self_args (TQint 2) ex_self_body vs = Some v /\
     wf_args ex_self_args = true /\ ty_good (TQint 2) = true /\ wf_body ex_self_body = true /\
-    forallb stmt_ne ex_self_body = true /\ args_encoded enc rho ex_self_args vs /\
+    args_encoded enc rho ex_self_args vs /\
     body_guard enc (arg_env ex_self_args) (TQint 2) ex_self_body = false /\
     decode (TQint 2) (map (fun s => run_defs rho (numbered enc (lf_defs lf)) (enc s)) (arg_names [ret_id] (TQint 2)))
       <> Some v.
@@ -257,7 +265,7 @@ Print Assumptions C01x_seq_ok_needed_refuted.
 
 (* "every accepted program has a meaning" is false: Qint ^ Qchar; `return 'a'` declared Qint[2] *)
 Theorem C01x_accepted_without_meaning_refuted :
-  (exists num rho G V e r, env_ok num rho G V /\ env_canon G /\ env_ne G /\
+  (exists num rho G V e r, env_ok num rho G V /\ env_canon G /\ sub_ne G e = true /\
      trans_exp num G e = Some r /\ eval_exp V e = None)
   /\ (exists num args rt body lf, trans_fun num args rt body = Some lf /\
         forall vs, eval_fun args rt body vs = None).
